@@ -587,3 +587,14 @@ let run input impl =
   last_cls := "unsupported";
   let v = S_wire.run_with oracle input impl in
   { v with Verdict.cls = !last_cls }
+
+(* ---- suite c20r: refused CONNECTs claiming the client id of a real session leave its per-client counters alone *)
+let run_c20r (input : Sexp.t) (impl : Sexp.t) : Verdict.t =
+  (match Sexp.field_opt "harness_error" impl with Some [e] -> failwith ("harness: " ^ Sexp.to_string e) | _ -> ());
+  let rx = int_of_sx (Sexp.field1 "connect_rx" impl) and tx = int_of_sx (Sexp.field1 "connack_tx" impl) in
+  let refused = int_of_sx (Sexp.field1 "refused" impl) in
+  let ok = rx = 1 && tx = 1 in
+  { Verdict.agree = ok; oracle = ok; kf = "-"; nontrivial = refused > 0;
+    cls = Printf.sprintf "%s_v%s_refused%d" (Sexp.atom (Sexp.field1 "order" input)) (Sexp.atom (Sexp.field1 "v" input)) refused;
+    model = Sexp.L [Sexp.L [Sexp.A "connect_rx"; Sexp.A "1"]; Sexp.L [Sexp.A "connack_tx"; Sexp.A "1"]];
+    why = if ok then "" else Printf.sprintf "the client's counters show %d CONNECT received / %d CONNACK sent for one accepted connection (%d refused connections claimed its id)" rx tx refused }
